@@ -14,6 +14,152 @@ namespace Exo.C01
 open Exo
 
 variable {V : Type} [DataAlg V] (ext : String → List V → V)
+/-! ### renaming a loop variable (what `Alpha_Rename` does to the iterator of a copied loop) -/
+
+/-- `for i in [lo,hi): B`  =  `for i' in [lo,hi): B[i ↦ i']`  when `i'` does not occur in `B` and
+    is not re-bound inside it.  The real primitives that duplicate a loop (cut_loop, the tail of
+    divide_loop, fission) give the copy a fresh iterator; this is the invariance they rely on.
+    (Renaming of names *defined* inside the copied body — allocations, windows — is not covered.) -/
+theorem rename_loop_var (i i' : Sym) (lo hi : Expr) (B : List Stmt) (par : Bool) (σ : State V)
+    (hocc : occL i' B = false) (hlv : ∀ k ∈ loopVarsL B, k ≠ i') :
+    execS ext (.loop i' lo hi (substL i (.read i' []) B) par) σ
+      = execS ext (.loop i lo hi B par) σ := by
+  simp only [execS]
+  cases evalC σ lo with
+  | error e => rfl
+  | ok l =>
+    cases evalC σ hi with
+    | error e => rfl
+    | ok h =>
+      simp only [bind, Except.bind]
+      split
+      · rfl
+      · congr 1
+        funext v s
+        have := loopStep_subst_gen ext i' i (.read i' []) B v v s rfl
+          (by simp [evalC, State.bind, lookupSym]; rfl)
+          (fun k hk => by
+            have := hlv k hk
+            simp [Expr.occC]
+            exact fun e => this e.symm)
+          (Or.inl hocc)
+        exact this
+
+/-! ### reorder_loops -/
+
+/-- the effect of the loop body at iteration `(i, j) = (a, b)`, in its own scope -/
+def stepIJ (i j : Sym) (B : List Stmt) (a b : Int) (s : State V) : Except Err (State V) :=
+  (execL ext B ((s.bind i a).bind j b)).map (State.leave s)
+
+/-- the value of a bound that mentions neither configuration state nor `x` is the same under an
+    extra binding of `x` and in any state with the same environment and views -/
+theorem evalC_bound_stable (e : Expr) (x : Sym) (v : Int) (σ s : State V) (c : Int)
+    (hf : e.cfgFree = true) (hx : e.occC x = false) (he : s.env = σ.env) (hv : s.views = σ.views)
+    (h : evalC σ e = .ok c) : evalC (s.bind x v) e = .ok c := by
+  have e1 : s.bind x v = s.withEnv ((x, v) :: s.env) := rfl
+  rw [e1, evalC_env e s _ (fun y hy => by
+    have : y ≠ x := by intro e'; subst e'; rw [hx] at hy; cases hy
+    simp [lookupSym_cons, this])]
+  rw [evalC_cfgFree e σ s hf he hv]
+  exact h
+
+/-- one iteration of the outer loop of a two-deep nest is a run of `stepIJ` over the inner range -/
+theorem nest_outer_step (i j : Sym) (lo2 hi2 : Expr) (B : List Stmt) (par : Bool) (a : Int)
+    (σ s : State V) (l2 h2 : Int) (hl2 : evalC σ lo2 = .ok l2) (hh2 : evalC σ hi2 = .ok h2)
+    (hle : l2 ≤ h2) (fl : lo2.cfgFree = true) (fh : hi2.cfgFree = true)
+    (il : lo2.occC i = false) (ih : hi2.occC i = false)
+    (he : s.env = σ.env) (hv : s.views = σ.views) :
+    loopStep ext i [.loop j lo2 hi2 B par] a s
+      = iterate (fun b => stepIJ ext i j B a b) (h2 - l2).toNat l2 s := by
+  conv => lhs; unfold loopStep
+  rw [execL_singleton,
+      execS_loop ext j lo2 hi2 B par (s.bind i a) l2 h2
+        (evalC_bound_stable lo2 i a σ s l2 fl il he hv hl2)
+        (evalC_bound_stable hi2 i a σ s h2 fh ih he hv hh2) hle]
+  have hinner : ∀ k t, loopStep ext j B k (t.bind i a)
+      = (stepIJ ext i j B a k t).map (fun u => u.bind i a) := by
+    intro k t
+    unfold loopStep stepIJ
+    cases execL ext B ((t.bind i a).bind j k) <;> rfl
+  rw [iterate_map_bind (fun k => stepIJ ext i j B a k) i a _ hinner]
+  cases hit : iterate (fun k => stepIJ ext i j B a k) (h2 - l2).toNat l2 s with
+  | error e => rfl
+  | ok s1 =>
+    have sc := iterate_heapLen _ (fun v t t' ht => by
+      obtain ⟨t2, h2', rfl⟩ := map_leave_ok ht
+      have := (execL_scope ext B ((t.bind i a).bind j v) t2 h2').2.1
+      exact ⟨leave_heap_length t t2 this, rfl, rfl⟩) _ _ _ _ hit
+    simp only [Except.map]
+    rw [leave_bind_of_scope s s1 i a sc.2.1 sc.2.2 sc.1]
+
+/-- binding `i` then `j` or `j` then `i` is the same for the body when `i ≠ j` -/
+theorem stepIJ_swap (i j : Sym) (hij : i ≠ j) (B : List Stmt) (a b : Int) (s : State V) :
+    stepIJ ext j i B b a s = stepIJ ext i j B a b s := by
+  unfold stepIJ
+  have e : (s.bind j b).bind i a = ((s.bind i a).bind j b).withEnv ((i, a) :: (j, b) :: s.env) := rfl
+  rw [e, execL_env ext B ((s.bind i a).bind j b) _ (fun y _ => by
+    simp only [State.bind, lookupSym_cons]
+    by_cases h1 : y = i
+    · subst h1; simp [hij]
+    · by_cases h2 : y = j
+      · subst h2; simp [Ne.symm hij]
+      · simp [h1, h2])]
+  cases execL ext B ((s.bind i a).bind j b) with
+  | error e => rfl
+  | ok s1 => rfl
+
+/-- `reorder_loops`:  `for i in [lo1,hi1): for j in [lo2,hi2): B`  ≈  `for j …: for i …: B`
+    when the four bounds read no configuration state, the inner bounds do not mention the outer
+    iterator (and vice versa), and iteration `(a, b)` commutes with every iteration `(a', b')`
+    that the interchange moves before it (`a < a'`, `b' < b`) — the semantic content of
+    `Check_ReorderLoops` -/
+theorem reorder_loops (i j : Sym) (hij : i ≠ j) (lo1 hi1 lo2 hi2 : Expr) (B : List Stmt)
+    (par1 par2 : Bool) (σ : State V) (l1 h1 l2 h2 : Int)
+    (hl1 : evalC σ lo1 = .ok l1) (hh1 : evalC σ hi1 = .ok h1)
+    (hl2 : evalC σ lo2 = .ok l2) (hh2 : evalC σ hi2 = .ok h2) (hle1 : l1 ≤ h1) (hle2 : l2 ≤ h2)
+    (f1 : lo1.cfgFree = true ∧ hi1.cfgFree = true) (f2 : lo2.cfgFree = true ∧ hi2.cfgFree = true)
+    (o1 : lo1.occC j = false ∧ hi1.occC j = false) (o2 : lo2.occC i = false ∧ hi2.occC i = false)
+    (hc : ∀ a a' b b', a < a' → b' < b → ∀ s,
+      ExEq (stepIJ ext i j B a b s >>= stepIJ ext i j B a' b')
+           (stepIJ ext i j B a' b' s >>= stepIJ ext i j B a b)) :
+    ExEq (execS ext (.loop i lo1 hi1 [.loop j lo2 hi2 B par2] par1) σ)
+         (execS ext (.loop j lo2 hi2 [.loop i lo1 hi1 B par1] par2) σ) := by
+  rw [execS_loop ext i lo1 hi1 _ par1 σ l1 h1 hl1 hh1 hle1,
+      execS_loop ext j lo2 hi2 _ par2 σ l2 h2 hl2 hh2 hle2]
+  -- rewrite both outer iterations over states that keep σ's environment and views
+  have left := iterate_eq_of_inv (fun s : State V => s.env = σ.env ∧ s.views = σ.views)
+    (loopStep ext i [.loop j lo2 hi2 B par2])
+    (fun a s => iterate (fun b => stepIJ ext i j B a b) (h2 - l2).toNat l2 s) 0
+    (fun a s s' hs hstep => by
+      have sc := iterate_heapLen _ (fun v t t' ht => by
+        obtain ⟨t2, h2', rfl⟩ := map_leave_ok ht
+        have := (execL_scope ext B ((t.bind i a).bind j v) t2 h2').2.1
+        exact ⟨leave_heap_length t t2 this, rfl, rfl⟩) _ _ _ _ hstep
+      exact ⟨sc.2.1.trans hs.1, sc.2.2.trans hs.2⟩)
+    (fun a s hs => by
+      simp only [Int.add_zero]
+      exact nest_outer_step ext i j lo2 hi2 B par2 a σ s l2 h2 hl2 hh2 hle2 f2.1 f2.2 o2.1 o2.2 hs.1 hs.2)
+    (h1 - l1).toNat l1 σ ⟨rfl, rfl⟩
+  have right := iterate_eq_of_inv (fun s : State V => s.env = σ.env ∧ s.views = σ.views)
+    (loopStep ext j [.loop i lo1 hi1 B par1])
+    (fun b s => iterate (fun a => stepIJ ext i j B a b) (h1 - l1).toNat l1 s) 0
+    (fun b s s' hs hstep => by
+      have sc := iterate_heapLen _ (fun v t t' ht => by
+        obtain ⟨t2, h2', rfl⟩ := map_leave_ok ht
+        have := (execL_scope ext B ((t.bind i v).bind j b) t2 h2').2.1
+        exact ⟨leave_heap_length t t2 this, rfl, rfl⟩) _ _ _ _ hstep
+      exact ⟨sc.2.1.trans hs.1, sc.2.2.trans hs.2⟩)
+    (fun b s hs => by
+      simp only [Int.add_zero]
+      rw [nest_outer_step ext j i lo1 hi1 B par1 b σ s l1 h1 hl1 hh1 hle1 f1.1 f1.2 o1.1 o1.2 hs.1 hs.2]
+      congr 1
+      funext a t
+      exact stepIJ_swap ext i j hij B a b t)
+    (h2 - l2).toNat l2 σ ⟨rfl, rfl⟩
+  simp only [Int.add_zero] at left right
+  rw [left, right]
+  exact iterate_interchange (fun a b => stepIJ ext i j B a b) hc _ _ _ _ σ
+
 /-! ### shift_loop -/
 
 /-- `for i in [lo, hi): B`  =  `for i in [nlo, nlo + (hi - lo)): B[i ↦ i + (lo - nlo)]`
